@@ -9,6 +9,7 @@ import (
 
 	"kyverif/internal/apo"
 	"kyverif/internal/core"
+	"kyverif/internal/efx"
 	"kyverif/internal/rules"
 )
 
@@ -46,6 +47,39 @@ func main() {
 				fmt.Printf("  %-5v must=%-5v %s   deps=%v  @%s\n", g.FailWhen, g.MustPass, g.Cond, g.Deps, p.Pos(g.Pos))
 			}
 		}
+	case "efx":
+		fs := flag.NewFlagSet("efx", flag.ExitOnError)
+		re := fs.String("f", "", "regexp on short function name")
+		cfg := fs.String("cfg", "default", "configuration")
+		fs.Parse(os.Args[2:])
+		p, err := core.Load(core.Configs[*cfg], nil)
+		if err != nil {
+			fmt.Println(err)
+			os.Exit(1)
+		}
+		rx := regexp.MustCompile(*re)
+		var names []string
+		for n, fn := range p.Funcs {
+			if rx.MatchString(n) && len(fn.Blocks) > 0 {
+				names = append(names, n)
+			}
+		}
+		sort.Strings(names)
+		an := efx.NewAnalyzer(p)
+		for _, n := range names {
+			s := an.Summary(p.Funcs[n])
+			fmt.Printf("== %s\n  writes=%v\n  reads=%v\n", n, s.Writes.Sorted(), s.Reads.Sorted())
+			for k, r := range s.Ret {
+				fmt.Printf("  ret%d=%v\n", k, r.Sorted())
+			}
+			for t, srcs := range s.RefStores {
+				fmt.Printf("  refstore %s <- %v\n", t, srcs.Sorted())
+			}
+			if len(s.Unknown) > 0 {
+				fmt.Printf("  unknown=%v\n", s.Unknown)
+			}
+		}
+		fmt.Printf("stats %+v\n", an.Stats)
 	case "gen-gates":
 		for _, prop := range os.Args[2:] {
 			c := rules.NewCtx(prop, "gen")
